@@ -3,10 +3,7 @@ package c19
 import (
 	"encoding/xml"
 	"fmt"
-	"go/ast"
-	"go/parser"
-	"go/token"
-	"path/filepath"
+	"regexp"
 	"sort"
 	"strconv"
 	"strings"
@@ -24,9 +21,9 @@ import (
 // "Condition(12)" is not.  Two regenerated facts make an off-by-one in the writer's guard a
 // broken proof obligation:
 //
-//   - read from the source (go/ast): the stringer table (_Condition_name cut at
-//     _Condition_index) and the guard of Condition.TokenReader, as the half-open interval
-//     [lo, hi) of values for which an element is written;
+//   - probed (round C; formerly read from the syntax, which broke on a guard rewritten as a
+//     switch): the stringer table (String() of 0, 1, … up to its fallback) and the half-open
+//     interval [lo, hi) of values for which Condition.TokenReader writes an element;
 //   - obtained by running the real writers on their whole finite domain (all 65536
 //     conditions through the export hook, all 256 commands.Actions): every element name
 //     that is ever written.
@@ -38,169 +35,69 @@ type enumTable struct {
 	why    string
 }
 
-// constInt evaluates the small integer expressions of the guard: literals, len(<index table>),
-// + and -, and conversions such as Condition(x) / int(x).
-func constInt(e ast.Expr, lenIdx int) (int, bool) {
-	switch t := e.(type) {
-	case *ast.ParenExpr:
-		return constInt(t.X, lenIdx)
-	case *ast.BasicLit:
-		if t.Kind == token.INT {
-			v, err := strconv.Atoi(t.Value)
-			return v, err == nil
+// saslTable is a *probe* fact: the stringer table and the writer's guard of internal/saslerr
+// are observed by running the real code over its whole finite domain (through the tag-guarded
+// export hook), not read from its syntax — a guard written as a switch, with its halves
+// swapped, or in a helper gives the same table; a guard that lets another value through gives
+// another one.
+//
+//	names: Condition(n).String() for n = 0, 1, … up to the first value the stringer does not
+//	       know (its fallback has the form "Condition(n)")
+//	[lo, hi): the set of the 65536 values for which TokenReader writes an element, which must
+//	       be one interval
+func saslTable(string) (t enumTable) {
+	fallback := regexp.MustCompile(`^Condition\(-?[0-9]+\)$`)
+	for n := 0; n < 4096; n++ {
+		name := xmpp.VerifSASLConditionName(uint16(n))
+		if fallback.MatchString(name) {
+			break
 		}
-	case *ast.BinaryExpr:
-		a, ok1 := constInt(t.X, lenIdx)
-		b, ok2 := constInt(t.Y, lenIdx)
-		if ok1 && ok2 {
-			switch t.Op {
-			case token.ADD:
-				return a + b, true
-			case token.SUB:
-				return a - b, true
-			}
-		}
-	case *ast.CallExpr:
-		if id, ok := t.Fun.(*ast.Ident); ok && len(t.Args) == 1 {
-			if id.Name == "len" {
-				if a, ok := t.Args[0].(*ast.Ident); ok && a.Name == "_Condition_index" {
-					return lenIdx, true
-				}
-				return 0, false
-			}
-			// a conversion
-			return constInt(t.Args[0], lenIdx)
-		}
+		t.names = append(t.names, name)
 	}
-	return 0, false
-}
-
-func isCondVar(e ast.Expr, name string) bool {
-	switch t := e.(type) {
-	case *ast.Ident:
-		return t.Name == name
-	case *ast.ParenExpr:
-		return isCondVar(t.X, name)
-	case *ast.CallExpr: // int(c), uint(c), …
-		if _, ok := t.Fun.(*ast.Ident); ok && len(t.Args) == 1 {
-			return isCondVar(t.Args[0], name)
-		}
-	}
-	return false
-}
-
-// saslTable reads the stringer table and the writer's guard of internal/saslerr.
-func saslTable(repo string) (t enumTable) {
-	fset := token.NewFileSet()
-	dir := filepath.Join(repo, "internal", "saslerr")
-	sf, err := parser.ParseFile(fset, filepath.Join(dir, "condition_string.go"), nil, 0)
-	if err != nil {
-		t.why = err.Error()
+	if len(t.names) < 2 {
+		t.why = "the stringer knows fewer than two conditions"
 		return
 	}
-	var nameStr string
-	var idx []int
-	ast.Inspect(sf, func(n ast.Node) bool {
-		vs, ok := n.(*ast.ValueSpec)
-		if !ok {
-			return true
-		}
-		for i, id := range vs.Names {
-			if i >= len(vs.Values) {
-				continue
-			}
-			switch id.Name {
-			case "_Condition_name":
-				if bl, ok := vs.Values[i].(*ast.BasicLit); ok {
-					nameStr, _ = strconv.Unquote(bl.Value)
-				}
-			case "_Condition_index":
-				if cl, ok := vs.Values[i].(*ast.CompositeLit); ok {
-					for _, e := range cl.Elts {
-						if v, ok := constInt(e, 0); ok {
-							idx = append(idx, v)
-						}
-					}
-				}
-			}
-		}
-		return true
-	})
-	if nameStr == "" || len(idx) < 2 {
-		t.why = "stringer table not found"
-		return
-	}
-	for i := 0; i+1 < len(idx); i++ {
-		if idx[i] > idx[i+1] || idx[i+1] > len(nameStr) {
-			t.why = "stringer index table is not monotone"
-			return
-		}
-		t.names = append(t.names, nameStr[idx[i]:idx[i+1]])
-	}
-	ef, err := parser.ParseFile(fset, filepath.Join(dir, "errors.go"), nil, 0)
-	if err != nil {
-		t.why = err.Error()
-		return
-	}
-	for _, d := range ef.Decls {
-		fd, ok := d.(*ast.FuncDecl)
-		if !ok || fd.Name.Name != "TokenReader" || recvName(fd) != "Condition" || fd.Body == nil || len(fd.Body.List) < 2 {
+	lo, hi, count := -1, -1, 0
+	for n := 0; n < 65536; n++ {
+		names := map[string]bool{}
+		wrote := writesElement(xmpp.VerifSASLCondition(uint16(n)).TokenReader(), names)
+		if !wrote {
 			continue
 		}
-		recv := ""
-		if len(fd.Recv.List[0].Names) == 1 {
-			recv = fd.Recv.List[0].Names[0].Name
+		if lo == -1 {
+			lo = n
 		}
-		ifs, ok := fd.Body.List[0].(*ast.IfStmt)
-		if !ok || ifs.Else != nil || ifs.Init != nil {
-			t.why = "Condition.TokenReader does not start with the guard"
-			return
-		}
-		or, ok := ifs.Cond.(*ast.BinaryExpr)
-		if !ok || or.Op != token.LOR {
-			t.why = "guard is not `none || out of range`"
-			return
-		}
-		// left: c == ConditionNone (the zero value)
-		l, ok := or.X.(*ast.BinaryExpr)
-		if !ok || l.Op != token.EQL || !isCondVar(l.X, recv) {
-			t.why = "left half of the guard is not `c == ConditionNone`"
-			return
-		}
-		if id, ok := l.Y.(*ast.Ident); !ok || id.Name != "ConditionNone" {
-			t.why = "left half of the guard does not compare with ConditionNone"
-			return
-		}
-		// right: c >= K  or  c > K
-		rr, ok := or.Y.(*ast.BinaryExpr)
-		if !ok || !isCondVar(rr.X, recv) {
-			t.why = "right half of the guard is not a comparison of the condition"
-			return
-		}
-		k, ok := constInt(rr.Y, len(idx))
-		if !ok {
-			t.why = "upper bound of the guard is not a constant expression over len(_Condition_index)"
-			return
-		}
-		switch rr.Op {
-		case token.GEQ:
-			t.hi = k
-		case token.GTR:
-			t.hi = k + 1
-		default:
-			t.why = "unexpected comparison in the guard"
-			return
-		}
-		// the guarded branch writes no element
-		if len(ifs.Body.List) != 1 {
-			t.why = "guarded branch is not a single return"
-			return
-		}
-		t.lo, t.ok = 1, true
+		hi = n + 1
+		count++
+	}
+	if lo == -1 {
+		t.why = "no condition is written as an element"
 		return
 	}
-	t.why = "Condition.TokenReader not found"
+	if hi-lo != count {
+		t.why = fmt.Sprintf("the written conditions are not an interval: %d values in [%d, %d)", count, lo, hi)
+		return
+	}
+	t.lo, t.hi, t.ok = lo, hi, true
 	return
+}
+
+// writesElement runs a writer (a panic counts as "writes": the fact must not hide it).
+func writesElement(tr xml.TokenReader, into map[string]bool) (wrote bool) {
+	defer func() {
+		if recover() != nil {
+			wrote = true
+		}
+	}()
+	toks, _ := common.ReadAllTokens(tr)
+	for _, t := range toks {
+		if s, ok := t.(xml.StartElement); ok {
+			into[s.Name.Local] = true
+			wrote = true
+		}
+	}
+	return wrote
 }
 
 func elementNames(tr xml.TokenReader, into map[string]bool) {
